@@ -273,6 +273,7 @@ func i32p(v int32) *int32   { return &v }
 
 // c11Kinds: the outstanding call(s) and the valid response for each kind.
 type c11Kind struct {
+	lateCancel []int // calls whose context ends after they were queued and before the multi is flushed
 	name  string
 	calls []callSpec
 	cfg   rigCfg
@@ -479,7 +480,47 @@ func c11Kinds() []c11Kind {
 		ms = append(ms, countMuts(func(p *respParts, v int32) { first(p).Result.AssociatedCellCount = i32p(v) })...)
 		return ms
 	}
-	return []c11Kind{getK, mutK, scanK, multiK}
+	// a multi-request from which one call was dropped (its context had ended before the flush):
+	// the server may nevertheless mention that index
+	dropK := c11Kind{name: "multi-dropped", lateCancel: []int{0}, calls: []callSpec{{Kind: "get", Key: "a1"}, {Kind: "get", Key: "z2"}, {Kind: "put", Key: "a2"}},
+		cfg: rigCfg{QueueSize: 4, Flush: 50 * time.Millisecond}}
+	dropK.base = func(id uint32) *respParts {
+		cells := kvBytes("z2", 2)
+		return &respParts{hdr: &pb.ResponseHeader{CallId: u32p(id), CellBlockMeta: meta(cells)},
+			body: &pb.MultiResponse{RegionActionResult: []*pb.RegionActionResult{
+				{ResultOrException: []*pb.ResultOrException{{Index: u32p(3), Result: &pb.Result{}}}},
+				{ResultOrException: []*pb.ResultOrException{{Index: u32p(2), Result: &pb.Result{AssociatedCellCount: i32p(2)}}}},
+			}}, cells: cells}
+	}
+	dropK.muts = func() []c11Mut {
+		mr := func(p *respParts) *pb.MultiResponse { return p.body.(*pb.MultiResponse) }
+		return []c11Mut{
+			{"result-with-cells-for-dropped-call", func(p *respParts) {
+				r0 := mr(p).RegionActionResult[0]
+				r0.ResultOrException = append([]*pb.ResultOrException{{Index: u32p(1), Result: &pb.Result{AssociatedCellCount: i32p(1)}}}, r0.ResultOrException...)
+				p.cells = append(kvBytes("a1", 1), p.cells...)
+				p.hdr.CellBlockMeta = &pb.CellBlockMeta{Length: u32p(uint32(len(p.cells)))}
+			}, false},
+			{"result-without-cells-for-dropped-call", func(p *respParts) {
+				r0 := mr(p).RegionActionResult[0]
+				r0.ResultOrException = append(r0.ResultOrException, &pb.ResultOrException{Index: u32p(1), Result: &pb.Result{}})
+			}, false},
+			{"exception-for-dropped-call", func(p *respParts) {
+				r0 := mr(p).RegionActionResult[0]
+				r0.ResultOrException = append(r0.ResultOrException, &pb.ResultOrException{Index: u32p(1),
+					Exception: &pb.NameBytesPair{Name: proto.String("java.io.IOException"), Value: []byte("x")}})
+			}, false},
+			{"only-dropped-call-answered", func(p *respParts) {
+				mr(p).RegionActionResult = []*pb.RegionActionResult{{ResultOrException: []*pb.ResultOrException{{Index: u32p(1), Result: &pb.Result{AssociatedCellCount: i32p(1)}}}}}
+				p.cells = kvBytes("a1", 1)
+				p.hdr.CellBlockMeta = &pb.CellBlockMeta{Length: u32p(uint32(len(p.cells)))}
+			}, false},
+			{"region-exception-covering-dropped-call", func(p *respParts) {
+				mr(p).RegionActionResult[0] = &pb.RegionActionResult{Exception: &pb.NameBytesPair{Name: proto.String("java.io.IOException"), Value: []byte("x")}}
+			}, false},
+		}
+	}
+	return []c11Kind{getK, mutK, scanK, multiK, dropK}
 }
 
 type c11Obs struct {
@@ -509,8 +550,10 @@ func c11Body(k c11Kind, frame func(id uint32) []byte, codec compression.Codec, o
 			sc.SetRegion(regA)
 			calls = append(calls, sc)
 		}
+		var cancels []context.CancelFunc
 		for _, s := range k.calls {
-			cl, _ := r.mkCall(s)
+			cl, cancel := r.mkCall(s)
+			cancels = append(cancels, cancel)
 			if regionOfKey(s.Key) == "A" {
 				cl.SetRegion(regA)
 			} else {
@@ -541,9 +584,22 @@ func c11Body(k c11Kind, frame func(id uint32) []byte, codec compression.Codec, o
 			i := i
 			vrt.GoNamed(fmt.Sprintf("h:caller%d", i), func() {
 				r.rc.QueueRPC(calls[i])
-				out.res[i] = vrt.Recv(calls[i].ResultChan())
-				out.got[i] = true
+				var sel vrt.Select
+				slot := vrt.AddRecv(&sel, calls[i].ResultChan())
+				vrt.AddRecv(&sel, calls[i].Context().Done())
+				if sel.Wait() == 0 {
+					out.res[i] = slot.V
+					out.got[i] = true
+				}
 				vrt.Send(fin, i)
+			})
+		}
+		if len(k.lateCancel) > 0 {
+			vrt.GoNamed("h:canceller", func() {
+				vrt.Sleep(10 * time.Millisecond)
+				for _, i := range k.lateCancel {
+					cancels[i]()
+				}
 			})
 		}
 		for i := 0; i < n; i++ {
